@@ -261,7 +261,7 @@ def _check_case(case: dict) -> Tuple[int, List[dict]]:
 
     def fail(clause: str, expr: str, rp, rt, observed, expected):
         fails.append({"clause": clause, "expression": expr, "resolve_packages": rp, "replace_time_conditions": rt,
-                      "observed": observed, "expected": expected})
+                      "observed": observed, "expected": expected, "case": case["i"]})
 
     all_leaves = case["leaves_a"] + case["leaves_b"]
     for rp, rt in MODES:
@@ -361,7 +361,17 @@ def _part_b(ctx, tier: str, seed: int) -> List[dict]:
             if sig not in seen_sig:
                 seen_sig.add(sig)
                 uniq_fs.append(f)
-        for j, f in enumerate(uniq_fs[:MAXV]):
+        confirmed = []
+        for f in uniq_fs:
+            if len(confirmed) >= MAXV:
+                break
+            # replay: run the real code again on the same case in this process; keep the finding only if it shows again
+            again = _check_case(cases[f["case"]])[1]
+            if any(g["clause"] == clause and g["expression"] == f["expression"]
+                   and g["resolve_packages"] == f["resolve_packages"]
+                   and g["replace_time_conditions"] == f["replace_time_conditions"] for g in again):
+                confirmed.append(f)
+        for j, f in enumerate(confirmed):
             ctx.violation(obligation=f"bounded/{clause}/{j}",
                           message=f"{clause}: {f['expression']!r} (resolve_packages={f['resolve_packages']}, "
                                   f"replace_time_conditions={f['replace_time_conditions']}): observed {f['observed']}, expected {f['expected']}",
@@ -394,7 +404,7 @@ def _part_b(ctx, tier: str, seed: int) -> List[dict]:
     for item, (kind, val) in zip(items, res):
         if kind == "raised" and val != "ValueError":
             others[val] += 1
-        if kind == "ok" and reported < MAXV:
+        if kind == "ok" and reported < MAXV and _check_rejected(item)[0] == "ok":  # replayed in this process
             reported += 1
             ctx.violation(obligation=f"bounded/keys-outside-ranges-rejected/{reported}",
                           message=f"extract_categorized_keys({item[0]!r}) returned {val} although a key is outside all ranges",
@@ -498,7 +508,8 @@ def _part_c(ctx, tier: str, seed: int, cases: List[dict]) -> None:
     results2 = pmap(_check_pipeline, extra, chunksize=4)
     reported = 0
     for r in sorted(results + results2, key=lambda r: (len(r["rc"]) + len(r["fc"]), r["rc"], r["fc"])):
-        if r["problems"] and reported < MAXV:
+        if r["problems"] and reported < MAXV \
+                and _check_product((r["rc"], r["fc"], r["hints"]))["problems"]:  # replayed in this process
             reported += 1
             ctx.violation(obligation=f"bounded/possible-results==cartesian-product/{reported}",
                           message=f"generate_possible_content_evaluation_results for rc={r['rc']} fc={r['fc']} hints={r['hints']}: "
